@@ -8,7 +8,11 @@ package main
 import (
 	"bytes"
 	"fmt"
+	"io/ioutil"
 	"math/big"
+	"os"
+	"path/filepath"
+	"sort"
 	"strconv"
 	"strings"
 
@@ -65,6 +69,13 @@ func refJumpdests(code []byte) map[int]bool {
 func refRun(code, input []byte, p022 bool) refResult {
 	return refRunNested(code, input, p022, nil, nil)
 }
+
+// aliasQuirk switches the reference from the specification to the one recorded deviation of
+// go-rangers (known finding returndata-alias-identity-overlap): after a call to the identity
+// precompile 0x04 the return-data buffer holds what the INPUT WINDOW of caller memory contains
+// after the write-back to the output window (they alias), instead of the bytes that were sent.
+// It is used only to decide whether a difference is exactly that recorded deviation.
+var aliasQuirk = false
 
 // refRunNested: as refRun; additionally STATICCALL (0xfa) to `calleeAddr` runs `calleeCode` in a
 // fresh frame (own stack and memory, call data = the input window) and gives the caller the
@@ -146,6 +157,8 @@ func refRunNested(code, input []byte, p022 bool, calleeAddr, calleeCode []byte) 
 			need, adds = int(op)-0x8f+1, int(op)-0x8f+1
 		case op == 0xfa && calleeAddr != nil:
 			need, adds = 6, 1
+		case op == 0xf1 && calleeAddr != nil:
+			need, adds = 7, 1
 		case op == 0x5a:
 			return refResult{kind: "skip"}
 		case op >= 0x0c && op <= 0x0f, op == 0x1e, op == 0x1f, op >= 0x21 && op <= 0x2f, op >= 0xa5 && op <= 0xe9, op == 0xfe:
@@ -310,9 +323,16 @@ func refRunNested(code, input []byte, p022 bool, calleeAddr, calleeCode []byte) 
 			push(big.NewInt(int64(len(code))))
 		case op == 0x3d:
 			push(big.NewInt(int64(len(rd))))
-		case op == 0xfa:
-			_, addr, inOff, inSize, retOff, retSize := pop(), pop(), pop(), pop(), pop(), pop()
-			if !bytes.Equal(leftPad32(addr.Bytes())[12:], calleeAddr) || addr.BitLen() > 160 {
+		case op == 0xfa || op == 0xf1:
+			_, addr := pop(), pop()
+			if op == 0xf1 {
+				if v := pop(); v.Sign() != 0 {
+					return refResult{kind: "skip", why: "value transfer"}
+				}
+			}
+			inOff, inSize, retOff, retSize := pop(), pop(), pop(), pop()
+			isIdentity := addr.Cmp(big.NewInt(4)) == 0
+			if !isIdentity && (!bytes.Equal(leftPad32(addr.Bytes())[12:], calleeAddr) || addr.BitLen() > 160) {
 				return refResult{kind: "skip", why: "call to another address"}
 			}
 			if !touch(inOff, inSize) || !touch(retOff, retSize) {
@@ -322,7 +342,13 @@ func refRunNested(code, input []byte, p022 bool, calleeAddr, calleeCode []byte) 
 			if inSize.Sign() > 0 {
 				in = append([]byte{}, mem[inOff.Int64():inOff.Int64()+inSize.Int64()]...)
 			}
-			sub := refRunNested(calleeCode, in, p022, nil, nil)
+			var sub refResult
+			if isIdentity {
+				// precompile 0x04 (Yellow Paper Appendix E, "ID"): output = input
+				sub = refResult{kind: "ok", ret: in}
+			} else {
+				sub = refRunNested(calleeCode, in, p022, nil, nil)
+			}
 			switch sub.kind {
 			case "skip":
 				return sub
@@ -336,7 +362,15 @@ func refRunNested(code, input []byte, p022 bool, calleeAddr, calleeCode []byte) 
 				push(big.NewInt(0))
 				rd = nil
 			}
-			if sub.kind != "err" && retSize.Sign() > 0 {
+			wroteBack := false
+			if isIdentity && aliasQuirk && inSize.Sign() > 0 {
+				if retSize.Sign() > 0 {
+					copy(mem[retOff.Int64():retOff.Int64()+retSize.Int64()], rd)
+				}
+				wroteBack = true
+				rd = append([]byte{}, mem[inOff.Int64():inOff.Int64()+inSize.Int64()]...)
+			}
+			if !wroteBack && sub.kind != "err" && retSize.Sign() > 0 {
 				copy(mem[retOff.Int64():retOff.Int64()+retSize.Int64()], rd)
 			}
 		case op == 0x37 || op == 0x39:
@@ -533,7 +567,15 @@ func search(a map[string]string) {
 			}
 			classes[stream+":"+ik]++
 			if ik != r.kind || (ik != "err" && !bytes.Equal(ret, r.ret)) {
-				report("spec-program-"+stream, line, kind+" "+hx.Hex(ret), r.kind+" "+hx.Hex(r.ret)+" "+r.why)
+				key := "spec-program-" + stream
+				// is it exactly the recorded deviation (and nothing else)?
+				aliasQuirk = true
+				q := refRunNested(code, input, cfg&2 != 0, calleeAddr.Bytes(), callee)
+				aliasQuirk = false
+				if q.kind == ik && (ik == "err" || bytes.Equal(ret, q.ret)) {
+					key = "returndata-alias-identity-overlap"
+				}
+				report(key, line, kind+" "+hx.Hex(ret), r.kind+" "+hx.Hex(r.ret)+" "+r.why)
 			}
 		case "valid":
 			code, _ := hx.UnHex(w[1])
@@ -568,8 +610,13 @@ func search(a map[string]string) {
 		}
 		check("lattice", v.line)
 	}
-	// class 3: nested frames (pooled stacks/memory handed from frame to frame, return data)
-	for i := 0; i < 1500; i++ {
+	// hand-written searcher corpus (lines the Lean driver does not model, e.g. run2)
+	for _, l := range searchCorpus() {
+		check("nested", l)
+	}
+	// class 3: nested frames (pooled stacks/memory handed from frame to frame, return data,
+	// identity precompile whose output aliases caller memory)
+	for i := 0; i < 2500; i++ {
 		check("nested", g.nested())
 	}
 	done := false
@@ -704,4 +751,27 @@ func concurrent(a map[string]string) {
 		}
 	}
 	fmt.Printf("STATS {\"evaluations\":%d,\"found\":%d,\"workers\":%d}\n", evals, found, workers)
+}
+
+func searchCorpus() []string {
+	dir := os.Getenv("VERIF_CORPUS")
+	if dir == "" {
+		return nil
+	}
+	files, _ := filepath.Glob(filepath.Join(dir, "*.srch"))
+	sort.Strings(files)
+	var out []string
+	for _, f := range files {
+		b, err := ioutil.ReadFile(f)
+		if err != nil {
+			continue
+		}
+		for _, l := range strings.Split(string(b), "\n") {
+			l = strings.TrimSpace(l)
+			if l != "" && !strings.HasPrefix(l, "#") {
+				out = append(out, l)
+			}
+		}
+	}
+	return out
 }
